@@ -6,29 +6,30 @@
 EXTENDS ObsBin, SequencesExt
 CONSTANTS WLS,           \* wavelengths (integers, D = 1)
           NMin, NMax,    \* number of rows
-          NCol,          \* 3 | 4
-          Wids,          \* widths a row may have (4 columns; use {1} for 3 columns)
+          NCols,         \* subset of {3, 4}: column counts of the source
+          NMax3,         \* largest number of rows of a 3-column source
+          Wids,          \* widths a row may have (4 columns)
           H,             \* native cells are H, 2H, 3H, H, .. cm-1 wide
           U,             \* > 0: every centre, half-width and native edge is a multiple of U/2 cm-1 and the
                          \*      window algorithm of FluxBinner is checked on that lattice; 0: definition only
           AlgVariant,    \* "ok" | "resumestart" | "resumestop" | "resume"
           Export
-VARIABLES phase, rows, out, nat
-vars == <<phase, rows, out, nat>>
+VARIABLES phase, ncol, rows, out, nat
+vars == <<phase, ncol, rows, out, nat>>
 D == 1
 Primes == <<2, 3, 5, 7, 11, 13>>
-KSeqs == UNION {{SetToSortSeq(S, LAMBDA a, b : a < b) : S \in {T \in SUBSET WLS : Cardinality(T) = n}} : n \in NMin..NMax}
-RowsOf(ks) == {[i \in 1..Len(ks) |-> <<ks[i], Primes[i], Primes[Len(ks) + 1 - i] + 10, wd[i]>>] : wd \in [1..Len(ks) -> Wids]}
-AllRows == {r \in UNION {RowsOf(ks) : ks \in KSeqs} : Loadable(r, NCol)}
+KSeqs(nc) == UNION {{SetToSortSeq(S, LAMBDA a, b : a < b) : S \in {T \in SUBSET WLS : Cardinality(T) = n}} : n \in NMin..(IF nc = 4 THEN NMax ELSE NMax3)}
+RowsOf(ks, nc) == {[i \in 1..Len(ks) |-> <<ks[i], Primes[i], Primes[Len(ks) + 1 - i] + 10, wd[i]>>] : wd \in [1..Len(ks) -> IF nc = 4 THEN Wids ELSE {1}]}
+AllRows(nc) == {r \in UNION {RowsOf(ks, nc) : ks \in KSeqs(nc)} : Loadable(r, nc)}
 
 \* the native model of an observation (reading A of the widths; 3 columns: wide enough for reading B too)
 NativeOf(L) == NatFor(L.wn, [i \in 1..Len(L.wn) |-> RMax(L.wnwA[i], L.wnwB[i])], H)
 
-Init == phase = "in" /\ rows \in AllRows /\ out = <<>> /\ nat = <<>>
+Init == phase = "in" /\ ncol \in NCols /\ rows \in AllRows(ncol) /\ out = <<>> /\ nat = <<>>
 LoadRows == /\ phase = "in"
-            /\ out' = Load(rows, D, NCol, "ok")
-            /\ nat' = NativeOf(Load(rows, D, NCol, "ok"))
-            /\ phase' = "done" /\ UNCHANGED rows
+            /\ out' = Load(rows, D, ncol, "ok")
+            /\ nat' = NativeOf(Load(rows, D, ncol, "ok"))
+            /\ phase' = "done" /\ UNCHANGED <<ncol, rows>>
 Next == LoadRows
 Spec == Init /\ [][Next]_vars
 
@@ -46,13 +47,13 @@ ModelCovered == Done => \A i \in 1..Len(out.wn) :
 \* whose value, error (and width) element i of the observation carries
 RowBin(r) == [c |-> RDiv(TenK, R(rows[r][1], D)),
               w |-> RDiv(RMul(TenK, R(rows[r][4], D)), RMul(R(rows[r][1], D), R(rows[r][1], D)))]
-ModelWithItsRow == Done /\ NCol = 4 => \A p \in Perms :
-    LET L == Load(Permute(rows, p), D, NCol, "ok")  M == ModA(L) IN
+ModelWithItsRow == Done /\ ncol = 4 => \A p \in Perms :
+    LET L == Load(Permute(rows, p), D, ncol, "ok")  M == ModA(L) IN
     \A i \in 1..Len(L.wn) : \E r \in 1..Len(rows) :
         /\ L.val[i] = rows[r][2] /\ L.err[i] = rows[r][3]
         /\ M[i] = ModelOnBin(NatM, F, 1, RowBin(r).c, RowBin(r).w)
 ModelPermutationInvariant == Done => \A p \in Perms :
-    LET L == Load(Permute(rows, p), D, NCol, "ok") IN ModA(L) = ModA(out) /\ ModB(L) = ModB(out)
+    LET L == Load(Permute(rows, p), D, ncol, "ok") IN ModA(L) = ModA(out) /\ ModB(L) = ModB(out)
 ModelBetween == Done => \A i \in 1..Len(out.wn) :
     /\ RLe(Q(B!SeqMinI(F)), ModA(out)[i]) /\ RLe(ModA(out)[i], Q(B!SeqMaxI(F)))
     /\ RLe(Q(B!SeqMinI(F)), ModB(out)[i]) /\ RLe(ModB(out)[i], Q(B!SeqMaxI(F)))
@@ -69,7 +70,7 @@ TW(bn)  == [i \in 1..Len(bn.grid) |-> RDiv(bn.widths[i], Q(U))[1]]
 \* create_binner() of the observation loaded from ANY row order, then bindown of the native model:
 \* entry i is the model over exactly [wn_i - w_i/2, wn_i + w_i/2] of the observation's element i
 AlgRefinesObs == Done /\ U > 0 => \A p \in Perms :
-    LET L   == Load(Permute(rows, p), D, NCol, "ok")
+    LET L   == Load(Permute(rows, p), D, ncol, "ok")
         bn  == BinnerOf(L)
         res == WinFlux(NMn, NMx, F, TC2(bn), TW(bn), AlgVariant)
     IN  \A i \in 1..Len(L.wn) : res[i] = [k |-> "num", v |-> ModelOnBin(NatM, F, 1, L.wn[i], L.wnwA[i])]
@@ -85,7 +86,7 @@ WinIsBinning == Done /\ U > 0 =>
 FitsInv == Done => \A i \in 1..Len(out.wn) : Fits(ModA(out)[i]) /\ Fits(ModB(out)[i])
 
 Emit == (Export /\ Done) =>
-    PrintT(<<"VEC", ToJson([rows |-> rows, ncol |-> NCol, exp |-> out, nat |-> NatM, f |-> F,
+    PrintT(<<"VEC", ToJson([rows |-> rows, ncol |-> ncol, exp |-> out, nat |-> NatM, f |-> F,
                             modA |-> ModA(out), modB |-> ModB(out),
                             geoA |-> Geo(out.wn, out.wnwA), geoB |-> Geo(out.wn, out.wnwB)])>>)
 =============================================================================
